@@ -1,11 +1,16 @@
+mod check_sched;
 mod cmd;
 mod explore;
+mod linspec;
 mod model;
 mod model_step;
 mod props;
+mod props_sched;
 mod report;
+mod sched;
 mod seq;
 mod sut;
+mod watchdog;
 mod wire;
 
 use props::Tier;
@@ -201,19 +206,56 @@ fn main() {
                 }
                 i += 1;
             }
+            watchdog::start(if id.starts_with("C14") { "C14" } else { &id });
             let out = match id.as_str() {
                 "C01" => check_seq("C01", tier),
                 "C02" => check_seq("C02", tier),
+                "C03" => check_sched::check("C03", tier, props_sched::c03_families(tier), &["linearizable", "no-panic"], nthreads()),
+                "C04" => check_sched::check("C04", tier, props_sched::c04_families(tier), &["linearizable", "no-panic"], nthreads()),
                 "C05" => check_seq("C05", tier),
+                "C16" => check_sched::check("C16", tier, props_sched::c16_families(tier), &["deadlock", "livelock"], nthreads()),
+                "C14c" => check_sched::check("C14", tier, props_sched::c14_families(tier), &["over-limit", "deadlock", "livelock", "no-panic"], nthreads()),
                 "C06" => check_seq("C06", tier),
                 "C07" => check_seq("C07", tier),
                 "C08" => check_seq("C08", tier),
+                "C14s" => check_seq("C14", tier),
+                "C14" => {
+                    let a = check_seq("C14", tier);
+                    let b = check_sched::check("C14", tier, props_sched::c14_families(tier), &["over-limit", "deadlock", "livelock", "no-panic"], nthreads());
+                    let t = a.tier.clone();
+                    report::merge("C14", &t, vec![("sequential_histories_all_victims", a), ("concurrent_stores_all_schedules", b)])
+                }
+                "C15" => check_seq("C15", tier),
                 _ => {
                     eprintln!("unknown property {}", id);
                     std::process::exit(2);
                 }
             };
             report::finish(out)
+        }
+        "prog" => {
+            // mc prog <Cxx> <family> <index> [tier]: explore one program, print the result
+            let id = args.get(2).cloned().unwrap_or_default();
+            let fam_name = args.get(3).cloned().unwrap_or_default();
+            let index: usize = args.get(4).and_then(|s| s.parse().ok()).unwrap_or(0);
+            let tier = if args.get(5).map(|s| s.as_str()) == Some("thorough") { Tier::Thorough } else { Tier::Quick };
+            let fams = match id.as_str() {
+                "C03" => props_sched::c03_families(tier),
+                "C04" => props_sched::c04_families(tier),
+                "C16" => props_sched::c16_families(tier),
+                _ => props_sched::c14_families(tier),
+            };
+            sut::set_quiet(true);
+            sched::warm_up();
+            for f in &fams {
+                if f.name == fam_name {
+                    let p = &f.programs[index];
+                    println!("{}", p.describe());
+                    let r = sched::explore_program(p, f.opts);
+                    println!("{:#?}", r);
+                }
+            }
+            0
         }
         "replay" => replay(args.get(2).map(|s| s.as_str()).unwrap_or("")),
         _ => {
